@@ -369,6 +369,8 @@ int tls13_do_recv(TLS_CONNECT *conn)
 	if (tls13_gcm_decrypt(key, iv,
 		seq_num, record + 5, recordlen - 5,
 		&record_type, conn->databuf, &conn->datalen) != 1) {
+		// nothing of a rejected record may be handed out by a later tls13_recv
+		conn->datalen = 0;
 		error_print();
 		return -1;
 	}
@@ -381,6 +383,7 @@ int tls13_do_recv(TLS_CONNECT *conn)
 
 
 	if (record_type != TLS_record_application_data) {
+		conn->datalen = 0; // alerts and handshake messages are not application data
 		error_print();
 		return -1;
 	}
